@@ -130,7 +130,7 @@ def dataflow(lines):
         else:
             q = t[1]
             if q in ("equiv", "implied", "semeq"): ops = [int(t[2]), int(t[3])]
-            elif q in ("obs", "enum", "eval", "preds", "show", "csvout", "csvdef", "render", "display", "fresh", "weight", "repr", "row", "pycopy", "pyfrom", "roundtrip"): ops = [int(t[2])]
+            elif q in ("obs", "enum", "eval", "preds", "show", "csvout", "csvdef", "render", "display", "fresh", "weight", "nf", "repr", "row", "pycopy", "pyfrom", "roundtrip"): ops = [int(t[2])]
             per_line.append(([o for o in ops if o < len(kinds)], None))
     return per_line, taint
 
@@ -170,6 +170,7 @@ def write_replay(prop, tag, case, ta, tb, impl, model, note=""):
 def check(prop, tier, seed):
     from . import props
     t0 = time.time()
+    os.environ["VERIF_TIER_EFFECTIVE"] = tier
     rng = random.Random(seed)
     violations = 0
     lines_out = []
